@@ -77,7 +77,8 @@ Definition in_range (a lo hi : Z) : bool := (lo <=? a) && (a <? hi).
 (* UnsizedTypePtr::check_pointers: (result, new cursor) *)
 Fixpoint check_ptrs (p : ptr) (lo hi : Z) (cursor : Z) {struct p} : bool * Z :=
   match p with
-  | PFixed a | PList a _ | PRem a _ => ((cursor <=? a) && in_range a lo hi, a)
+  | PFixed a | PList a _ => ((cursor <=? a) && in_range a lo hi, a)
+  | PRem a _ => ((cursor <=? a) && (in_range a lo hi || (a =? hi)), a)   (* an empty tail may sit at the end of the allocation *)
   | PUList a _ inner _ _ _ =>
       let ic := match inner with Some q => fst (check_ptrs q lo hi lo) | None => true end in
       ((cursor <=? a) && in_range a lo hi && ic, a)
